@@ -228,6 +228,7 @@ func runBox(r *prng.R, s *out.Sink, tier string) {
 			// on how many topics messages of that sender come out of the buffer at this one moment
 			if i == nOps-1 || r.Intn(60) == 0 {
 				perSender := map[uint16]map[int]bool{}
+				perST := map[[2]int]int{} // messages of one sender that come out of the buffer for one topic
 				for t := 0; t < 64; t++ {
 					if rg.box.VerifSnapshot().BufferedMsgs == 0 {
 						break
@@ -242,7 +243,13 @@ func runBox(r *prng.R, s *out.Sink, tier string) {
 								perSender[src] = map[int]bool{}
 							}
 							perSender[src][t] = true
+							perST[[2]int{int(src), t}]++
 						}
+					}
+				}
+				for st, n := range perST {
+					if n > 100+1 {
+						s.Violate("C15", fmt.Sprintf("%d messages of sender %d were buffered for topic %d, the limit per sender and topic is 100 (give or take one)", n, st[0], st[1]), strings.Join(hist, "\n"))
 					}
 				}
 				for src, ts := range perSender {
